@@ -135,6 +135,14 @@ bool judge(vf::Run& r, const std::string& k, int ctx, bool must_fail, const Res&
     return d0() + vf::fmt(" [%s]: relation is %s, helper %s", ctx_name(ctx), must_fail ? "false" : "true", did.c_str());
   };
   if (!judge_ctx(r, ctx, res, d)) return false;
+  if (res.ill_formed == 2) {
+    r.fail(k + ":ill-formed-for-these-types", [&] { return d0() + ": the macro call does not compile for these operand / predicate types although the relation itself is a valid C++ expression whose value converts implicitly to bool (feature test with a requires-expression; the call was not made)"; });
+    return false;
+  }
+  if (res.ill_formed == 1) {
+    r.ok("not applicable: the relation's value converts to bool only explicitly, the call is ill-formed on this tree (not made)");
+    return true;
+  }
   if (res.kind == Res::OTHER) {
     r.fail(k + ":wrong-exception-type", d);
     return false;
@@ -204,6 +212,37 @@ void sweep_relations(vf::Run& r, const RelSweep& s, const std::vector<int>& ctxs
           r.nontriv();
           judge(r, rel_names[rel], ctx, !truth, res, site, rel_parts(rel), rel == 3 ? &kCustomMsg : nullptr, d);
         }
+      }
+    }
+  }
+}
+
+void sweep_predicates(vf::Run& r, const PredSweep& s, const std::vector<int>& ctxs) {
+  r.note(std::string("predicates ") + s.tname);
+  static const char* forms[] = {"expect", "expect_msg", "expect_generic", "expect(!v)"};
+  static const std::string m1 = "value is zero: 50% of %s", m2 = "generic %d%n";
+  // forms that do not compile for this predicate type: one case each
+  for (int form = 0; form < 4; form++) {
+    if (s.wf[form]) continue;
+    if (!r.take()) continue;
+    if (r.wants_desc()) r.desc(vf::fmt("%s<%s>: the call is ill-formed", forms[form], s.tname));
+    r.nontriv();
+    if (s.implicit_bool) r.fail(std::string(form == 3 ? "expect" : forms[form]) + ":ill-formed-for-these-types", [&] { return vf::fmt("%s with a predicate of type %s does not compile although the type converts implicitly to bool (feature test with a requires-expression; the call was not made)", forms[form], s.tname); });
+    else r.ok("not applicable: the predicate type converts to bool only contextually, the call is ill-formed on this tree (not made)");
+  }
+  for (int ctx : ctxs) {
+    for (int form = 0; form < 4; form++) {
+      if (!s.wf[form]) continue;
+      for (size_t i = 0; i < s.n; i++) {
+        if (!r.take()) continue;
+        Desc d = [&] { return vf::fmt("%s<%s>(%s)", forms[form], s.tname, s.show(i).c_str()); };
+        if (r.wants_desc()) r.desc(d() + " [" + ctx_name(ctx) + "]");
+        bool truth = false;
+        Site site;
+        Res res = run_ctx(ctx, r.ambient_errno(), [&] { return s.call(form, i, truth, site); });
+        r.nontriv();
+        static const std::vector<std::string> p0 = {"v"}, none = {}, p3 = {"!v"};
+        judge(r, form == 3 ? "expect" : forms[form], ctx, !truth, res, site, form == 0 ? p0 : form == 3 ? p3 : none, form == 1 ? &m1 : form == 2 ? &m2 : nullptr, d);
       }
     }
   }
